@@ -40,18 +40,18 @@ tvars == <<l, M, err, seen, cnt, used>>
 
 OK == <<"ok", "">>
 
-(* Known deviation D19 (rpc/backend/tx_info.go GetTransactionReceipt): the synthetic receipt of a tx that
+(* Known deviation D22 (rpc/backend/tx_info.go GetTransactionReceipt): the synthetic receipt of a tx that
    failed outside the VM adds the gas limit of every *refused* Ethereum tx in front of it to cumulativeGasUsed
    (when its own Ethereum index is > 0). *)
-DevD19 == "RpcReceipt/synthetic-cumulativeGasUsed-counts-refused-txs"
+DevD22 == "RpcReceipt/synthetic-cumulativeGasUsed-counts-refused-txs"
 
-(* Known deviation D20 (server/indexer_service.go OnStart): when the node has pruned blocks the index has not
+(* Known deviation D23 (server/indexer_service.go OnStart): when the node has pruned blocks the index has not
    reached yet (last indexed block < earliest available block) the service continues *after* the earliest
    available block instead of *with* it: that block is never indexed. *)
-DevD20 == "Converges/pruned-restart-skips-earliest-available-block"
+DevD23 == "Converges/pruned-restart-skips-earliest-available-block"
 
 M0 == [chain |-> <<>>, full |-> EmptyKv, kv |-> EmptyKv, pending |-> <<>>, up |-> FALSE, cur |-> 0, start |-> 0, tip |-> 0,
-       skip |-> {}, pruned |-> {}, skip20 |-> {}, mode |-> "none", done |-> {}, expect |-> EmptyKv, devSched |-> FALSE, sched |-> "none", viewDev |-> FALSE]
+       skip |-> {}, pruned |-> {}, skip23 |-> {}, mode |-> "none", done |-> {}, expect |-> EmptyKv, devSched |-> FALSE, sched |-> "none", viewDev |-> FALSE]
 
 (* the design module's own variables are not used here (the model state is the record M) *)
 TraceInit == /\ l = 1 /\ M = M0 /\ err = <<>> /\ seen = <<>> /\ cnt = NoFn /\ used = {}
@@ -110,14 +110,14 @@ DoRestart ==
   /\ Ev.ev = "Restart"
   /\ LET last == LastBlock(M.kv)
          c == IF Ev.last # last THEN <<"ResumeExact", "LastIndexedBlock-differs-from-last-block-in-index">> ELSE OK
-         (* what D18 does: an empty index on a restart = start from the current tip *)
+         (* what D21 does: an empty index on a restart = start from the current tip *)
          sk == IF Ev.run > 0 /\ last = -1 /\ M.mode = "service" THEN M.skip \cup ((M.start + 1)..Ev.tip) ELSE M.skip
          (* blocks the node has pruned before the index reached them cannot be indexed (legitimately missing);
-            the earliest available one can - D20 skips it *)
+            the earliest available one can - D23 skips it *)
          gap == M.mode = "service" /\ last # -1 /\ last < Ev.earliest
          pr == IF gap THEN M.pruned \cup ((last + 1)..(Ev.earliest - 1)) ELSE M.pruned
-         s20 == IF gap THEN M.skip20 \cup {Ev.earliest} ELSE M.skip20
-     IN Settle(c, [M EXCEPT !.up = TRUE, !.tip = Ev.tip, !.skip = sk, !.pruned = pr, !.skip20 = s20, !.pending = <<>>, !.cur = 0])
+         s23 == IF gap THEN M.skip23 \cup {Ev.earliest} ELSE M.skip23
+     IN Settle(c, [M EXCEPT !.up = TRUE, !.tip = Ev.tip, !.skip = sk, !.pruned = pr, !.skip23 = s23, !.pending = <<>>, !.cur = 0])
   /\ UNCHANGED <<cnt, used>>
 
 DoTip ==
@@ -166,9 +166,9 @@ DoKv ==
   /\ Ev.ev = "Kv"
   /\ LET d == KvOfDump(Ev.dump)
          want == IndexSkip(M.chain, M.start, M.tip, M.pruned)
-         w18 == IndexSkip(M.chain, M.start, M.tip, M.pruned \cup M.skip)
-         w20 == IndexSkip(M.chain, M.start, M.tip, M.pruned \cup M.skip20)
-         wantDev == IndexSkip(M.chain, M.start, M.tip, M.pruned \cup (IF DevD18 \in Known THEN M.skip ELSE {}) \cup (IF DevD20 \in Known THEN M.skip20 ELSE {}))
+         w21 == IndexSkip(M.chain, M.start, M.tip, M.pruned \cup M.skip)
+         w23 == IndexSkip(M.chain, M.start, M.tip, M.pruned \cup M.skip23)
+         wantDev == IndexSkip(M.chain, M.start, M.tip, M.pruned \cup (IF DevD21 \in Known THEN M.skip ELSE {}) \cup (IF DevD23 \in Known THEN M.skip23 ELSE {}))
          caught == Ev.when = "caught-up"
          devOk == caught /\ d # want /\ d = wantDev /\ ~HasForeign(Ev.dump)
          c == IF d # M.kv THEN <<"Binding", "database-dump-differs-from-the-model-database">>
@@ -176,11 +176,11 @@ DoKv ==
               ELSE IF HasForeign(Ev.dump) THEN <<"Converges", "index-holds-keys-that-are-no-function-of-the-chain">>
               ELSE IF d = want THEN OK
               ELSE IF devOk THEN OK
-              ELSE IF d = w18 THEN <<"Converges", "empty-index-restart-skips-to-latest">>
-              ELSE IF d = w20 THEN <<"Converges", "pruned-restart-skips-earliest-available-block">>
+              ELSE IF d = w21 THEN <<"Converges", "empty-index-restart-skips-to-latest">>
+              ELSE IF d = w23 THEN <<"Converges", "pruned-restart-skips-earliest-available-block">>
               ELSE <<"Converges", "index-after-catch-up-differs-from-Index(chain)">>
      IN /\ Settle(c, [M EXCEPT !.expect = IF devOk THEN wantDev ELSE want, !.devSched = devOk])
-        /\ used' = IF devOk THEN used \cup (IF d # w20 \/ M.skip20 = {} THEN {DevD18} ELSE {}) \cup (IF d # w18 \/ M.skip = {} THEN {DevD20} ELSE {}) ELSE used
+        /\ used' = IF devOk THEN used \cup (IF d # w23 \/ M.skip23 = {} THEN {DevD21} ELSE {}) \cup (IF d # w21 \/ M.skip = {} THEN {DevD23} ELSE {}) ELSE used
         /\ cnt' = IF caught THEN Bump(cnt, IF M.mode = "service" THEN (IF M.skip # {} \/ M.done # {} THEN "caught.service" ELSE "caught.service-empty") ELSE "caught.direct") ELSE cnt
 
 DoLookup ==
@@ -226,19 +226,19 @@ LogEq(g, w) == g.addr = w.addr /\ g.n = w.n /\ g.li = w.li /\ g.ti = w.ti /\ g.h
 LogsEq(gs, ws) == Len(gs) = Len(ws) /\ \A i \in 1..Len(ws) : LogEq(gs[i], ws[i])
 GroupsEq(gs, ws) == Len(gs) = Len(ws) /\ \A i \in 1..Len(ws) : LogsEq(gs[i], ws[i])
 
-(* gas limits of the refused Ethereum txs in front of position i (what D19 adds) *)
+(* gas limits of the refused Ethereum txs in front of position i (what D22 adds) *)
 RECURSIVE RefusedGasBefore(_, _)
 RefusedGasBefore(txs, i) == IF i <= 1 THEN 0
                             ELSE RefusedGasBefore(txs, i - 1) + (IF txs[i - 1].eth /\ ~Admitted(txs[i - 1]) THEN txs[i - 1].gas ELSE 0)
 
 RcptEq(got, want, b, i) ==
-  LET d19 == want.synthetic /\ want.idx > 0 /\ got.cum # want.cum /\ got.cum = want.cum + RefusedGasBefore(b.txs, i) IN
+  LET d22 == want.synthetic /\ want.idx > 0 /\ got.cum # want.cum /\ got.cum = want.cum + RefusedGasBefore(b.txs, i) IN
   <<  <<got.hash = want.hash, <<"RpcReceipt", "transactionHash">>>>,
       <<got.from = want.from, <<"RpcReceipt", "sender">>>>,
       <<got.status = want.status, <<"RpcReceipt", "status">>>>,
       <<got.gasUsed = want.gasUsed, <<"RpcReceipt", "gasUsed">>>>,
-      <<got.cum = want.cum \/ (d19 /\ DevD19 \in Known),
-            IF d19 THEN <<"RpcReceipt", "synthetic-cumulativeGasUsed-counts-refused-txs">> ELSE <<"RpcReceipt", "cumulativeGasUsed">>>>,
+      <<got.cum = want.cum \/ (d22 /\ DevD22 \in Known),
+            IF d22 THEN <<"RpcReceipt", "synthetic-cumulativeGasUsed-counts-refused-txs">> ELSE <<"RpcReceipt", "cumulativeGasUsed">>>>,
       <<got.idx = want.idx, <<"RpcReceipt", "transactionIndex">>>>,
       <<got.h = want.h, <<"RpcReceipt", "blockNumber">>>>,
       <<got.bh = want.bh, <<"RpcReceipt", "blockHash">>>>,
@@ -250,8 +250,8 @@ RcptEq(got, want, b, i) ==
       <<want.synthetic \/ got.effPrice = want.effPrice, <<"EffPrice", "effectiveGasPrice-differs-from-consensus-receipt">>>>,
       <<~want.synthetic \/ got.effPrice = want.effPrice, <<"EffPriceSynthetic", "effectiveGasPrice-of-synthetic-receipt-differs-from-price-charged">>>> >>
 
-RcptUsesD19(got, want, b, i) ==
-  want.synthetic /\ want.idx > 0 /\ got.cum # want.cum /\ got.cum = want.cum + RefusedGasBefore(b.txs, i) /\ DevD19 \in Known
+RcptUsesD22(got, want, b, i) ==
+  want.synthetic /\ want.idx > 0 /\ got.cum # want.cum /\ got.cum = want.cum + RefusedGasBefore(b.txs, i) /\ DevD22 \in Known
 
 (* result kinds *)
 IsVal(r) == r.k = "val"
@@ -316,14 +316,14 @@ RpcCheck ==
              ELSE OK
   ELSE <<"Binding", "unknown-rpc-method">>
 
-RpcUsesD19 ==
+RpcUsesD22 ==
   /\ Ev.m = "receipt" /\ Ev.res.k = "val" /\ Ev.hash \in DOMAIN M.full.byHash
-  /\ LET p == M.full.byHash[Ev.hash]  b == Blk(p.h)  i == p.txIdx + 1 IN RcptUsesD19(Ev.res.v, ReceiptView(b, i), b, i)
+  /\ LET p == M.full.byHash[Ev.hash]  b == Blk(p.h)  i == p.txIdx + 1 IN RcptUsesD22(Ev.res.v, ReceiptView(b, i), b, i)
 
 DoRpc ==
   /\ Ev.ev = "Rpc"
-  /\ Settle(RpcCheck, [M EXCEPT !.viewDev = IF Ev.m = "filterRange" THEN FALSE ELSE (@ \/ RpcUsesD19)])
-  /\ used' = IF RpcUsesD19 THEN used \cup {DevD19} ELSE used
+  /\ Settle(RpcCheck, [M EXCEPT !.viewDev = IF Ev.m = "filterRange" THEN FALSE ELSE (@ \/ RpcUsesD22)])
+  /\ used' = IF RpcUsesD22 THEN used \cup {DevD22} ELSE used
   /\ LET c1 == Bump(cnt, "rpc." \o Ev.m \o (IF Ev.indexed THEN "" ELSE ".fallback") \o "." \o Ev.res.k)
      IN cnt' = IF Ev.m = "filterRange" THEN Bump(c1, IF M.viewDev THEN "views.dev" ELSE "views.clean") ELSE c1
 
